@@ -64,7 +64,7 @@ pub fn run(ctx: &mut Ctx) {
     let (mut is, names) = new_iset();
     let cache = sorted_cache(&is);
     let judge = Judge { frame: true, reference: true };
-    let maxd = ctx.n(7, 10);
+    let maxd = ctx.n(7, 12);
     let variants = ctx.n(2, 6);
     let mut case: u64 = 0;
     let mut grid: u64 = 0;
@@ -184,7 +184,7 @@ pub fn run(ctx: &mut Ctx) {
     ctx.rec.note("grid_size", &grid.to_string());
     ctx.rec.checkpoint();
     // beyond the exhaustive grid: deep stacks (up to 60) with random indices around the depth
-    let nrand = ctx.n(20000, 400000);
+    let nrand = ctx.n(60000, 2000000);
     for k in 0..nrand as u64 {
         case += 1;
         if !ctx.mine(case) {
